@@ -547,6 +547,7 @@ def parseLine (p : Parsed) (line : String) : Parsed :=
     | none => { p with bad := true }
   | "op" :: rest => { p with ops := rest :: p.ops }
   | ["world"] => p                                   -- the processor lives in a World (harness side)
+  | ["unit", _] => p                                 -- length of one time unit in seconds (harness side)
   | [] => p
   | _ => { p with bad := true }
 
